@@ -32,7 +32,9 @@ Fixpoint stable (t : ty) : bool :=
   | TLogic CNot _ => true
   | TLogic CAnd _ => false
   | TRule origin args ell vals ct _ _ =>
-      checking_vals vals && (match ct with None => true | Some _ => false end) &&
+      checking_vals vals &&
+      (* `contains` only counts the accepting elements (any type may stand there); it is declared on containers *)
+      (match ct, args with Some _, [] => false | _, _ => true end) &&
       if tuple_origin origin ell && negb (match args with [] => true | _ => false end) then forallb stable args else
       match args with
       | [] => match origin with Some ot => stable ot | None => true end
